@@ -54,8 +54,8 @@ def ns_inputs(draw, tier, full_rank_only=False, rank_def_only=False, wide_range=
     else:
         A, pat = draw(gen.qarray(m, n, draw(st.sampled_from(["generic", "int", "pure_imag", "sparse"]))))
         kind = "pattern:" + pat
-    if draw(st.integers(0, 5)) == 0:
-        A = A * 10.0 ** draw(st.sampled_from([-8, -6, 6, 8]))      # the recurrence is scale covariant
+    if draw(st.integers(0, 3)) == 0:
+        A = A * 10.0 ** draw(st.sampled_from([-10, -9, -8, -6, 6, 8]))      # the recurrence is scale covariant
         kind = kind + "|scaled"
     return np.ascontiguousarray(A), kind
 
